@@ -228,11 +228,11 @@ P["C12"]["bounds"] += "; behavioural equivalence: every rule of 13 templates eva
 P["C12"]["outside"] = "rule sets outside the template family; readers that return short reads without being at the end"
 P["C12"]["assumptions"] = TIERC_ASSUME + TIERB_ASSUME
 
-P["C10"]["runs"] += [tierB("control", 3, 0, QT, require_reach=["tierB:self-retract-fired", "tierB:complete-fired"]), dict(tierB("controlp", 1, 1, T), thorough={"wall": "30m"}, require_reach=["tierB:self-retract-fired", "tierB:complete-fired"])]
+P["C10"]["runs"] += [tierB("control", 3, 0, QT, require_reach=["tierB:self-retract-fired", "tierB:complete-fired"])]
 P["C10"]["assumptions"] = TIERA_ASSUME + TIERB_ASSUME
 P["C10"]["bounds"] += "; Tier B: Retract (self / other / unknown) and Complete in the middle of real action lists (template b_retract) reached through FunctionCall -> GoValueNode.CallFunction -> reflect MethodByName/Call"
 P["C14"]["runs"] += [tierB("actfail2", 2, 0, QT, require_reach=["tierB:execute-returned", "tierB:failing-action-fired"]), tierB("kind2", 2, 0, QT), tierB("kind2", 2, 8, QT, require_reach=["tierB:execute-returned", "tierB:flag-set-and-a-condition-fails"]),
-                     tierB("control", 3, 0, QT), tierB("controlp", 1, 1, T), tierB("nilp", 3, 4, QT, require_reach=["tierB:execute-returned"]),
+                     tierB("control", 3, 0, QT), tierB("nilp", 3, 4, QT, require_reach=["tierB:execute-returned"]),
                      tierB("failing", 2, 8, QT, require_reach=["tierB:execute-returned", "tierB:flag-set-and-a-condition-fails"])]
 P["C14"]["assumptions"] = TIERA_ASSUME + TIERB_ASSUME
 P["C14"]["bounds"] += "; Tier B: real failures chosen by the solver through the facts (index out of range, integer division by zero, panicking user method, nil pointer, kind mismatch, missing fact, missing map key, a failing parenthesised sub-expression, Complete() before a failing action; a failing sub-expression shared with a healthy rule); the same failing templates with ReturnErrOnFailedRuleEvaluation set (error names a rule whose memo-free evaluation fails, nothing fires)"
